@@ -129,8 +129,14 @@ func startUpstream() (string, func()) {
 					}
 					var sc script
 					json.Unmarshal(content, &sc)
+					if os.Getenv("VH_TRACE") != "" {
+						fmt.Println("upstream got request", id, sc, time.Now().Format("05.000"), c.RemoteAddr())
+					}
 					go func() {
 						time.Sleep(time.Duration(sc.Up) * time.Millisecond)
+						if os.Getenv("VH_TRACE") != "" {
+							fmt.Println("upstream writes response", id, time.Now().Format("05.000"))
+						}
 						resp := boltResponse(id, []byte("ok"))
 						wmu.Lock()
 						defer wmu.Unlock()
@@ -162,6 +168,7 @@ type reqPlan struct {
 	Up   int `json:"up"`   // upstream delay
 	Gap  int `json:"gap"`  // gap between the two halves of the upstream response
 	// observed
+	SentAt  int  `json:"sent_at"`  // ms after origin at which the client had written the whole request
 	ReplyAt int  `json:"reply_at"` // ms after origin at which the client had the whole reply (-1: none)
 	OK      bool `json:"ok"`
 }
@@ -170,7 +177,8 @@ type scenario struct {
 	Name   string     `json:"listener"`
 	Addr   string     `json:"-"`
 	Reqs   []*reqPlan `json:"requests"`
-	Signal int        `json:"signal_at"`
+	Signal int        `json:"signal_planned"`
+	SigObs int        `json:"signal_at"`
 	Drain  int        `json:"drain_ms"`
 	ExitAt int        `json:"shutdown_returned_at"`
 	AccAft bool       `json:"accepted_after_shutdown"`
@@ -181,14 +189,12 @@ func c11Server(run *Run, dir string) int {
 	r := run.R
 	drain := 300
 	server.SetDrainTime(time.Duration(drain) * time.Millisecond)
-	upAddr, closeUp := startUpstream()
-	defer closeUp()
 
 	nsc := run.N(18, 90)
 	var scs []*scenario
 	var listeners []v2.Listener
-	routerName := "vh-router"
-	var rc *v2.RouterConfiguration
+	var rcs []*v2.RouterConfiguration
+	var clusters []v2.Cluster
 	xprotocol.RegisterXProtocolAction(xstream.NewConnPool, xstream.NewStreamFactory, func(codec api.XProtocolCodec) {})
 	if err := xprotocol.RegisterXProtocolCodec(&bolt.XCodec{}); err != nil {
 		fmt.Println("bolt codec registration failed:", err)
@@ -205,6 +211,9 @@ func c11Server(run *Run, dir string) int {
 			if r.Pct(12) {
 				p.Up = 700 // does not fit into the drain time
 			}
+			if nreq > 1 {
+				p.Gap = 0 // a half-written response would hold back the other response on the shared upstream connection
+			}
 			sc.Reqs = append(sc.Reqs, p)
 		}
 		// signal offset: sweep the lifetime of the first request, sometimes after everything is done
@@ -212,7 +221,11 @@ func c11Server(run *Run, dir string) int {
 		done := p.Recv + p.Up + p.Gap
 		switch i % 6 {
 		case 0:
-			sc.Signal = r.Intn(max(p.Recv, 1)) // while the request is being received (if it is sent in halves)
+			if p.Recv == 0 {
+				p.Recv = r.Pick([]int{80, 140})
+				done = p.Recv + p.Up + p.Gap
+			}
+			sc.Signal = r.Intn(p.Recv) // while the request is being received (headers sent, body half sent)
 		case 1, 2:
 			sc.Signal = p.Recv + 10 + r.Intn(max(p.Up-20, 1)) // waiting for the upstream
 		case 3:
@@ -222,12 +235,32 @@ func c11Server(run *Run, dir string) int {
 		default:
 			sc.Signal = r.Intn(done + 40)
 		}
+		// keep the signal away from the phase boundaries: there the outcome is a legitimate race
+		for moved := true; moved; {
+			moved = false
+			for _, q := range sc.Reqs {
+				for _, b := range []int{q.T0, q.T0 + q.Recv, q.T0 + q.Recv + q.Up, q.T0 + q.Recv + q.Up + q.Gap} {
+					if d := sc.Signal - b; d > -18 && d < 18 {
+						sc.Signal = b + 18 + r.Intn(8)
+						moved = true
+					}
+				}
+			}
+		}
 		scs = append(scs, sc)
+		// a router and a cluster (hence an upstream connection) of its own per scenario: responses of different
+		// scenarios must not queue behind each other on one multiplexed upstream connection
+		// (MOSN pools upstream connections per host address, so the upstream server is per scenario as well)
+		upAddr, closeUp := startUpstream()
+		defer closeUp()
+		routerName, clusterName := fmt.Sprintf("vh-router-%d", i), fmt.Sprintf("vh-up-%d", i)
 		proxy := &v2.Proxy{DownstreamProtocol: "bolt", UpstreamProtocol: "bolt", RouterConfigName: routerName}
-		rc = &v2.RouterConfiguration{RouterConfigurationConfig: v2.RouterConfigurationConfig{RouterConfigName: routerName},
+		rcs = append(rcs, &v2.RouterConfiguration{RouterConfigurationConfig: v2.RouterConfigurationConfig{RouterConfigName: routerName},
 			VirtualHosts: []v2.VirtualHost{{Name: "vh", Domains: []string{"*"}, Routers: []v2.Router{{RouterConfig: v2.RouterConfig{
 				Match: v2.RouterMatch{Headers: []v2.HeaderMatcher{{Name: "service", Value: ".*", Regex: true}}},
-				Route: v2.RouteAction{RouterActionConfig: v2.RouterActionConfig{ClusterName: "vh-up"}}}}}}}}
+				Route: v2.RouteAction{RouterActionConfig: v2.RouterActionConfig{ClusterName: clusterName}}}}}}}})
+		clusters = append(clusters, v2.Cluster{Name: clusterName, ClusterType: v2.SIMPLE_CLUSTER, LbType: v2.LB_ROUNDROBIN,
+			MaxRequestPerConn: 1024, ConnBufferLimitBytes: 16 * 1024, Hosts: []v2.Host{{HostConfig: v2.HostConfig{Address: upAddr}}}})
 		listeners = append(listeners, v2.Listener{ListenerConfig: v2.ListenerConfig{Name: sc.Name, AddrConfig: sc.Addr, BindToPort: true, Network: "tcp",
 			FilterChains: []v2.FilterChain{{FilterChainConfig: v2.FilterChainConfig{Filters: []v2.Filter{{Type: "proxy", Config: toMap(proxy)}}}}}}})
 	}
@@ -236,9 +269,8 @@ func c11Server(run *Run, dir string) int {
 		logPath, logLevel = "stdout", "DEBUG"
 	}
 	cfg := &v2.MOSNConfig{
-		Servers: []v2.ServerConfig{{DefaultLogPath: logPath, DefaultLogLevel: logLevel, Listeners: listeners, Routers: []*v2.RouterConfiguration{rc}}},
-		ClusterManager: v2.ClusterManagerConfig{Clusters: []v2.Cluster{{Name: "vh-up", ClusterType: v2.SIMPLE_CLUSTER, LbType: v2.LB_ROUNDROBIN,
-			MaxRequestPerConn: 1024, ConnBufferLimitBytes: 16 * 1024, Hosts: []v2.Host{{HostConfig: v2.HostConfig{Address: upAddr}}}}}},
+		Servers: []v2.ServerConfig{{DefaultLogPath: logPath, DefaultLogLevel: logLevel, Listeners: listeners, Routers: rcs}},
+		ClusterManager: v2.ClusterManagerConfig{Clusters: clusters},
 	}
 	cfg.DisableUpgrade = true // no reconfigure listener: the two-process part is out of scope here
 	cfg.UDSDir = dir
@@ -319,6 +351,7 @@ func c11Server(run *Run, dir string) int {
 				} else {
 					c.Write(frame)
 				}
+				p.SentAt = ms()
 				for {
 					typ, _, id, content, err := readBoltFrame(c)
 					if err != nil {
@@ -326,6 +359,9 @@ func c11Server(run *Run, dir string) int {
 					}
 					if typ == 0 && id == uint32(7+k) {
 						p.ReplyAt = ms()
+						if os.Getenv("VH_TRACE") != "" {
+							fmt.Println("client", sc.Name, k, "reply at", p.ReplyAt, time.Now().Format("05.000"), "origin", origin.Format("05.000"))
+						}
 						p.OK = string(content) == "ok"
 						return
 					}
@@ -333,6 +369,7 @@ func c11Server(run *Run, dir string) int {
 			}(k, p)
 		}
 		time.Sleep(time.Until(origin.Add(time.Duration(sc.Signal) * time.Millisecond)))
+		sc.SigObs = ms()
 		handler.GracefulStopListener(nil, sc.Name)
 		sc.ExitAt = ms()
 		// no new connection after the stop
@@ -355,24 +392,36 @@ func c11Server(run *Run, dir string) int {
 
 	// ---- evaluate ----
 	sh := run.NewShard(c11Header, "drain_case", "drain_mismatches")
-	const tol = 90
+	const tol = 70
 	for _, sc := range scs {
 		if sc.Err != "" {
 			fmt.Println("scenario could not run:", sc.Name, sc.Err)
 			return 2
 		}
+		// the model is fed with the OBSERVED request timings (when the client finished sending, when it had the reply), so
+		// that only the drain loop's own behaviour is compared, not the scheduling noise of the scripted peers
 		var rs []string
 		phase := "idle"
+		racy := false
+		sig := sc.SigObs
 		for k, p := range sc.Reqs {
-			rs = append(rs, fmt.Sprintf("(mkR %d%%nat %d%%nat %d%%nat %d%%nat)", p.T0, p.Recv, p.Up, p.Gap))
-			decoded, done := p.T0+p.Recv, p.T0+p.Recv+p.Up+p.Gap
+			sent, done := p.SentAt, p.ReplyAt
+			if done < 0 {
+				done = sent + p.Up + p.Gap
+			}
+			rs = append(rs, fmt.Sprintf("(mkR %d%%nat %d%%nat %d%%nat 0%%nat)", p.T0, sent-p.T0, done-sent))
+			for _, b := range []int{sent, done} {
+				if d := sig - b; d > -12 && d < 12 {
+					racy = true // the signal fell on a phase boundary: either outcome is legitimate
+				}
+			}
 			ph := "idle"
 			switch {
-			case sc.Signal >= p.T0 && sc.Signal < decoded:
+			case sig >= p.T0 && sig < sent:
 				ph = "receiving"
-			case sc.Signal >= decoded && sc.Signal < decoded+p.Up:
+			case sig >= sent && sig < sent+p.Up && sig < done:
 				ph = "waiting-upstream"
-			case sc.Signal >= decoded+p.Up && sc.Signal < done:
+			case sig >= sent && sig < done:
 				ph = "reply-half-written"
 			}
 			if k == 0 {
@@ -381,26 +430,29 @@ func c11Server(run *Run, dir string) int {
 			rep := map[string]interface{}{"part": "drain", "scenario": sc, "request": k, "phase_at_signal": ph}
 			// finder: an in-flight request whose remainder fits the drain time must be answered before Shutdown returns
 			margin := 40
-			if ph != "idle" && done-sc.Signal <= sc.Drain-margin {
+			if ph != "idle" && !racy && done-sig <= sc.Drain-margin {
 				switch {
 				case p.ReplyAt < 0 || !p.OK:
 					run.Fail("shutdown:in-flight-request-failed:"+ph, fmt.Sprintf("request %d (phase %s at the signal) got no reply", k, ph), rep)
 				case p.ReplyAt > sc.ExitAt+20 && ph == "receiving":
-					run.Fail("shutdown:returns-while-a-request-is-still-being-received", fmt.Sprintf("Shutdown returned at %d ms, the reply of the request that was half sent when the signal arrived (%d ms) came at %d ms; remaining %d ms <= drain %d ms", sc.ExitAt, sc.Signal, p.ReplyAt, done-sc.Signal, sc.Drain), rep)
+					run.Fail("shutdown:returns-while-a-request-is-still-being-received", fmt.Sprintf("Shutdown returned at %d ms, the reply of the request that was half sent when the signal arrived (%d ms) came at %d ms; remaining %d ms <= drain %d ms", sc.ExitAt, sig, p.ReplyAt, done-sig, sc.Drain), rep)
 				case p.ReplyAt > sc.ExitAt+20:
-					run.Fail("shutdown:returns-before-in-flight-reply:"+ph, fmt.Sprintf("Shutdown returned at %d ms, before the reply (%d ms) of a request in phase %s at the signal (%d ms); remaining %d ms <= drain %d ms", sc.ExitAt, p.ReplyAt, ph, sc.Signal, done-sc.Signal, sc.Drain), rep)
+					run.Fail("shutdown:returns-before-in-flight-reply:"+ph, fmt.Sprintf("Shutdown returned at %d ms, before the reply (%d ms) of a request in phase %s at the signal (%d ms); remaining %d ms <= drain %d ms", sc.ExitAt, p.ReplyAt, ph, sig, done-sig, sc.Drain), rep)
 				}
-			}
-			if p.ReplyAt < 0 && done-sc.Signal <= sc.Drain-margin {
-				run.Fail("shutdown:request-lost", fmt.Sprintf("request %d got no reply", k), rep)
 			}
 		}
 		if sc.AccAft {
 			run.Fail("listener:accepted-after-graceful-stop", "a TCP connect succeeded after GracefulStopListener returned", map[string]interface{}{"part": "drain", "scenario": sc})
 		}
 		rep := map[string]interface{}{"part": "drain", "scenario": sc, "phase_at_signal": phase}
-		run.Count(fmt.Sprintf("drain|%v|%d", rs, sc.Signal), phase != "idle", "drain-phase="+phase, fmt.Sprintf("drain-requests=%d", len(sc.Reqs)))
-		sh.Add(fmt.Sprintf("(%s, %d%%nat, %d%%nat, 10%%nat, %d%%nat, %d%%nat)", CoqList(rs), sc.Signal, sc.Drain, tol, sc.ExitAt), rep)
+		kinds := []string{"drain-phase=" + phase, fmt.Sprintf("drain-requests=%d", len(sc.Reqs))}
+		if racy {
+			kinds = append(kinds, "drain-signal-on-boundary-not-compared")
+		}
+		run.Count(fmt.Sprintf("drain|%v|%d", rs, sc.Signal), phase != "idle", kinds...)
+		if !racy {
+			sh.Add(fmt.Sprintf("(%s, %d%%nat, %d%%nat, 10%%nat, %d%%nat, %d%%nat)", CoqList(rs), sig, sc.Drain, tol, sc.ExitAt), rep)
+		}
 		if phase == "waiting-upstream" {
 			run.Sample(rep)
 		}
